@@ -1,28 +1,8 @@
-"""Single source for MANIFEST.json (tools/gen_manifest.py). One entry per property that has a working check."""
+"""Shared constants for tools/gen_manifest.py. Each checks/cXX.py carries its own MANIFEST dict."""
 
 BASELINE_OFF = ("cd /repo && (cargo nextest run --workspace --no-fail-fast --test-threads 8 --offline "
                 "|| cargo test --workspace --no-fail-fast --offline)")
 
-ENGINES = [
-    {"name": "txn", "path": "spec/txn", "serves_properties": ["C08"],
-     "kind_free_text": "TLA+ Txn/TxnMC (TLC exhaustive + edge-cover export) -> harness txn_replay on real Transaction"},
-]
-
-CHECKS = {
-    "C08": {
-        "engine": "txn",
-        "category": "model_checking",
-        "text": ("TLC checks read-your-writes, exact savepoints, discard, mode errors and commit order on every "
-                 "reachable state of the bounded Txn model (the code's write-set representation next to ghost "
-                 "variables that state the property); every transition TLC explores is exported as a program and "
-                 "executed on a real Transaction, with probe reads after the last step, a concurrent reader and a "
-                 "fresh reader after drop / commit. Long random behaviours of the same spec (-simulate) extend the depth."),
-        "design_ref": "DESIGN.md §4 C08",
-        "note": ("Bounds: 2-3 keys, 2 values, 2 explicit timestamps, savepoint depth <= 3, exhaustive programs <= 5 steps, "
-                 "random ones <= 30. Trusted: TLC, the key/value byte mapping in harness/src/keys.rs, the driver's comparison."),
-        "technique": "TLA+ model checking (TLC) + spec-to-implementation transition replay",
-    },
-}
-
-NOT_YET = {
+# reason per property that is not (yet) claimed
+NOT_CLAIMED = {
 }
